@@ -194,14 +194,50 @@ pub open spec fn is_dht_copy(v: VehicleIdx, e: &JsonFleetDeadHeadTrip, f: &JsonF
 pub open spec fn real_tour(net: &Network, t: &Tour) -> bool {
     t.wf() && !t.is_dummy && *t.network == *net && tour_len_ok(t.nodes@)
 }
-/// the instance does not start within one dead-head duration after 1.1. of year 0 (precondition of
-/// schedule_dead_head_trip, slice json_out), for every leg with a location change
+/// the precondition of schedule_dead_head_trip (slice json_out) for every leg with a location change:
+/// the dead-head trip into an activity can be scheduled backwards from the activity's start
 pub open spec fn legs_schedulable(net: &Network, s: Seq<NodeIdx>) -> bool {
     forall|k: int| 0 <= k < s.len() - 1 && #[trigger] loc_change(net, s[k], s[k + 1])
         && net.sp_node(s[k + 1]).sp_is_activity() && net.min_dur(s[k], s[k + 1]) is Length
         ==> tp_secs(net.sp_node(s[k + 1]).sp_start_time()->Point_0) >= net.min_dur(s[k], s[k + 1])->Length_0.seconds
 }
-
+/// "the instance does not start within one dead-head duration after 1.1. of year 0": the trip from the
+/// start depot to the first activity can be scheduled backwards from the activity's start (for all
+/// later legs this follows from the timing rule, lemma_legs_schedulable)
+pub open spec fn first_leg_schedulable(net: &Network, s: Seq<NodeIdx>) -> bool {
+    loc_change(net, s[0], s[1]) && net.min_dur(s[0], s[1]) is Length
+        ==> tp_secs(net.sp_node(s[1]).sp_start_time()->Point_0) >= net.min_dur(s[0], s[1])->Length_0.seconds
+}
+pub proof fn lemma_dt_add_rank(t: DateTime, d: Duration)
+    requires t is Point, dt_ok(t), dt_small(t), d is Length, d->Length_0.seconds < 0x4000_0000_0000_0000,
+    ensures dt_rank(dt_add(t, d)) == dt_rank(t) + d->Length_0.seconds,
+{
+    let p = t->Point_0;
+    let l = d->Length_0;
+    let s = p.seconds as int + l.seconds as int;
+    assert(86400 * (s / 86400) + s % 86400 == s && 0 <= s % 86400 < 86400 && 0 <= s / 86400 <= s) by (nonlinear_arith) requires s >= 0;
+    assert(86400 * (p.days + s / 86400) == 86400 * p.days + 86400 * (s / 86400)) by (nonlinear_arith);
+}
+pub proof fn lemma_legs_schedulable(net: &Network, t: &Tour)
+    requires real_tour(net, t), first_leg_schedulable(net, t.nodes@),
+    ensures legs_schedulable(net, t.nodes@),
+{
+    let s = t.nodes@;
+    assert forall|k: int| 0 <= k < s.len() - 1 && #[trigger] loc_change(net, s[k], s[k + 1])
+        && net.sp_node(s[k + 1]).sp_is_activity() && net.min_dur(s[k], s[k + 1]) is Length
+        implies tp_secs(net.sp_node(s[k + 1]).sp_start_time()->Point_0) >= net.min_dur(s[k], s[k + 1])->Length_0.seconds by {
+        if k > 0 {
+            let a = s[k];
+            let b = s[k + 1];
+            lemma_tour_kinds(t, k);
+            lemma_tour_kinds(t, k + 1);
+            assert(net.nodes@.contains_key(a) && net.nodes@.contains_key(b));
+            assert(net.reach(s[k], s[k + 1]));
+            lemma_min_duration_small(net, a, b);
+            lemma_dt_add_rank(net.sp_node(a).sp_end_time(), net.min_dur(a, b));
+        }
+    }
+}
 /// what vehicle_to_json needs from the schedule for vehicle v (established by C10 for every real vehicle)
 pub open spec fn vehicle_ok(s: &Schedule, v: VehicleIdx) -> bool {
     let nodes = s.tours@[v].nodes@;
@@ -211,7 +247,7 @@ pub open spec fn vehicle_ok(s: &Schedule, v: VehicleIdx) -> bool {
     // A-depots: both depot nodes of the tour belong to depots of the network's depot table
     &&& s.network.depots@.contains_key(sp_depot_idx(&s.network, nodes[0]))
     &&& s.network.depots@.contains_key(sp_depot_idx(&s.network, nodes[nodes.len() - 1]))
-    &&& legs_schedulable(&s.network, nodes)
+    &&& first_leg_schedulable(&s.network, nodes)
 }
 
 /// C03 (vehicle perspective), part 1: id of the vehicle, ids of the depots of its first / last node
@@ -337,4 +373,241 @@ pub proof fn lemma_dht_total_mono(a: Seq<JsonVehicle>, i: int, k: int)
 {
     if i < k { lemma_dht_total_mono(a, i, k - 1); }
     else if k > 0 { lemma_dht_total_mono(a, i - 1, k - 1); }
+}
+
+// =====================================================================================================
+// departure_segments_to_json / maintenance_slots_to_json (C03 trip perspective)
+// =====================================================================================================
+/// C03: "the formation of a segment or slot": `out` lists the ids of the vehicles of formation `f`, in formation order
+pub open spec fn formation_listed(f: &TrainFormation, out: Seq<String>) -> bool {
+    &&& out.len() == f.formation@.len()
+    &&& forall|j: int| 0 <= j < f.formation@.len() ==> (#[trigger] out[j])@ == vid_text(f.formation@[j].idx)
+}
+/// the entry of the fleet-wide segment list for service node n, enumerated under vehicle type vt
+pub open spec fn is_segment_row(s: &Schedule, vt: VehicleTypeIdx, n: NodeIdx, e: &JsonDepartureSegmentWithFormation) -> bool {
+    let net = &s.network;
+    &&& e.departure_segment@ == sp_service_trip(net, n).id@
+    &&& e.origin@ == loc_name(&net.locations, net.sp_node(n).sp_start_location())
+    &&& e.destination@ == loc_name(&net.locations, net.sp_node(n).sp_end_location())
+    &&& e.departure@ == iso(net.sp_node(n).sp_start_time())
+    &&& e.arrival@ == iso(net.sp_node(n).sp_end_time())
+    &&& e.vehicle_type@ == type_id(net, vt)
+    &&& formation_listed(&s.train_formations@[n], e.formation@)
+}
+pub open spec fn is_slot_row(s: &Schedule, n: NodeIdx, e: &JsonFleetMaintenanceSlotWithFormation) -> bool {
+    let net = &s.network;
+    &&& e.maintenance_slot@ == sp_maintenance_slot(net, n).id@
+    &&& e.location@ == loc_name(&net.locations, net.sp_node(n).sp_start_location())
+    &&& e.start@ == iso(net.sp_node(n).sp_start_time())
+    &&& e.end@ == iso(net.sp_node(n).sp_end_time())
+    &&& formation_listed(&s.train_formations@[n], e.formation@)
+}
+pub open spec fn rows_of_type(vt: VehicleTypeIdx, ns: Seq<NodeIdx>) -> Seq<(VehicleTypeIdx, NodeIdx)> {
+    Seq::new(ns.len(), |i: int| (vt, ns[i]))
+}
+/// the (type, service node) pairs the writer enumerates for the first k vehicle types: per type (in
+/// `VehicleTypes::iter` order) the type's service-node list (in `Network::service_nodes` order)
+pub open spec fn seg_rows(net: &Network, types: Seq<VehicleTypeIdx>, k: int) -> Seq<(VehicleTypeIdx, NodeIdx)>
+    decreases k,
+{
+    if k <= 0 { Seq::empty() } else { seg_rows(net, types, k - 1) + rows_of_type(types[k - 1], net.service_nodes@[types[k - 1]]@) }
+}
+pub open spec fn all_seg_rows(net: &Network) -> Seq<(VehicleTypeIdx, NodeIdx)> {
+    seg_rows(net, net.vehicle_types.ids_sorted@, net.vehicle_types.ids_sorted@.len() as int)
+}
+pub open spec fn segments_listed(s: &Schedule, rows: Seq<(VehicleTypeIdx, NodeIdx)>, out: Seq<JsonDepartureSegmentWithFormation>) -> bool {
+    &&& out.len() == rows.len()
+    &&& forall|i: int| 0 <= i < rows.len() ==> is_segment_row(s, rows[i].0, rows[i].1, #[trigger] &out[i])
+}
+pub open spec fn slots_listed(s: &Schedule, rows: Seq<NodeIdx>, out: Seq<JsonFleetMaintenanceSlotWithFormation>) -> bool {
+    &&& out.len() == rows.len()
+    &&& forall|i: int| 0 <= i < rows.len() ==> is_slot_row(s, rows[i], #[trigger] &out[i])
+}
+/// what departure_segments_to_json needs (panic freedom): the per-type index of the network lists
+/// service nodes of the network (A-index, half of it), every listed type is a type of the network,
+/// and every listed node has a formation entry (C10: "each non-depot node is covered by exactly one
+/// train formation", possibly empty)
+pub open spec fn segments_pre(s: &Schedule) -> bool {
+    let net = &s.network;
+    let types = net.vehicle_types.ids_sorted@;
+    &&& net.wf()
+    &&& forall|i: int| 0 <= i < types.len() ==> net.vehicle_types.vehicle_types@.contains_key(#[trigger] types[i]) && net.service_nodes@.contains_key(types[i])
+    &&& forall|i: int, j: int| 0 <= i < types.len() && 0 <= j < net.service_nodes@[types[i]]@.len() ==> {
+            let n = #[trigger] net.service_nodes@[types[i]]@[j];
+            net.has(n) && net.sp_node(n) is Service && s.train_formations@.contains_key(n)
+        }
+}
+pub open spec fn slots_pre(s: &Schedule) -> bool {
+    let net = &s.network;
+    &&& net.wf()
+    &&& forall|j: int| 0 <= j < net.maintenance_nodes@.len() ==> {
+            let n = #[trigger] net.maintenance_nodes@[j];
+            net.has(n) && net.sp_node(n) is Maintenance && s.train_formations@.contains_key(n)
+        }
+}
+/// A-index (NOT proved here; established by Network::new, which fills `service_nodes` /
+/// `maintenance_nodes` from the node table): every service node of the network occurs exactly once in
+/// the enumeration of departure_segments_to_json, every maintenance node exactly once in
+/// `maintenance_nodes`.  Under A-index the two listings contain "every departure segment and every
+/// maintenance slot of the input exactly once" (C03).
+pub open spec fn a_index(net: &Network) -> bool {
+    let rows = all_seg_rows(net);
+    &&& forall|i: int, j: int| 0 <= i < j < rows.len() ==> (#[trigger] rows[i]).1 != (#[trigger] rows[j]).1
+    &&& forall|n: NodeIdx| #[trigger] net.has(n) && net.sp_node(n) is Service ==> exists|i: int| 0 <= i < rows.len() && (#[trigger] rows[i]).1 == n
+    &&& net.maintenance_nodes@.no_duplicates()
+    &&& forall|n: NodeIdx| #[trigger] net.has(n) && net.sp_node(n) is Maintenance ==> net.maintenance_nodes@.contains(n)
+}
+
+// =====================================================================================================
+// depot usage (C02 / C09 read-out): one Load per vehicle type with a positive spawn count
+// =====================================================================================================
+/// the abstract depot usage: (depot, type) -> (vehicles spawned there, vehicles despawned there)
+pub type UsageMap = Map<(DepotIdx, VehicleTypeIdx), (HashSet<VehicleIdx>, HashSet<VehicleIdx>)>;
+/// C02: "the number of vehicles [of a type] starting there" (same definition as slice admission)
+pub open spec fn spawned_of_type(du: UsageMap, d: DepotIdx, vt: VehicleTypeIdx) -> nat {
+    if du.contains_key((d, vt)) { du[(d, vt)].0@.len() } else { 0 }
+}
+/// the types among the first k of `types` with a positive spawn count at depot d, in order
+pub open spec fn spawning_types(du: UsageMap, d: DepotIdx, types: Seq<VehicleTypeIdx>, k: int) -> Seq<VehicleTypeIdx>
+    decreases k,
+{
+    if k <= 0 { Seq::empty() }
+    else {
+        let r = spawning_types(du, d, types, k - 1);
+        if spawned_of_type(du, d, types[k - 1]) > 0 { r.push(types[k - 1]) } else { r }
+    }
+}
+pub open spec fn loads_listed(s: &Schedule, d: DepotIdx, rows: Seq<VehicleTypeIdx>, out: Seq<Load>) -> bool {
+    &&& out.len() == rows.len()
+    &&& forall|i: int| 0 <= i < rows.len() ==> (#[trigger] out[i]).vehicle_type@ == type_id(&s.network, rows[i])
+            && out[i].spawn_count == spawned_of_type(s.depot_usage@, d, rows[i])
+}
+/// the Load list of depot d: exactly the types with a positive count, each with exactly that count
+pub open spec fn depot_loads_ok(s: &Schedule, d: DepotIdx, out: Seq<Load>) -> bool {
+    let types = s.network.vehicle_types.ids_sorted@;
+    loads_listed(s, d, spawning_types(s.depot_usage@, d, types, types.len() as int), out)
+}
+pub open spec fn usage_pre(s: &Schedule, d: DepotIdx) -> bool {
+    let types = s.network.vehicle_types.ids_sorted@;
+    forall|i: int| 0 <= i < types.len() ==> s.network.vehicle_types.vehicle_types@.contains_key(#[trigger] types[i])
+        // a VehicleCount is a u32 (there are at most 2^16 vehicle ids per kind)
+        && spawned_of_type(s.depot_usage@, d, types[i]) <= u32::MAX
+}
+/// the depots in the order `Network::depots_iter` yields them (`HashMap::keys`: unspecified)
+pub uninterp spec fn depot_order(net: &Network) -> Seq<DepotIdx>;
+pub open spec fn depots_listed(s: &Schedule, ds: Seq<DepotIdx>, out: Seq<DepotLoad>) -> bool {
+    &&& out.len() == ds.len()
+    &&& forall|i: int| 0 <= i < ds.len() ==> (#[trigger] out[i]).depot@ == s.network.depots@[ds[i]].0.id@ && depot_loads_ok(s, ds[i], out[i].load@)
+}
+
+// =====================================================================================================
+// schedule_to_json: assembly of the document
+// =====================================================================================================
+// A-serde: shim for the `serde_json` crate.  `Value` is opaque; `doc_of(v)` is the ScheduleJson a value
+// was produced from.  ASSUMED: serialising a ScheduleJson (strings, u32 and vectors only; string map
+// keys only) never fails and represents exactly the struct it was given.
+pub mod serde_json {
+use super::*;
+use vstd::prelude::*;
+#[verifier::external_body]
+pub struct Value { inner: () }
+#[verifier::external_body]
+pub struct Error { inner: () }
+pub uninterp spec fn doc_of(v: Value) -> ScheduleJson;
+#[verifier::external_body]
+pub fn to_value(value: ScheduleJson) -> (r: Result<Value, Error>)
+    ensures r is Ok, doc_of(r->Ok_0) == value,
+{ unimplemented!() }
+} // mod serde_json
+
+/// C03 / A-json: the fleet entry of type vt: its id, every vehicle with its itinerary, every cycle verbatim
+pub open spec fn is_fleet_json(s: &Schedule, vt: VehicleTypeIdx, f: &JsonFleet) -> bool {
+    &&& f.vehicle_type@ == type_id(&s.network, vt)
+    &&& vehicles_listed(s, type_vehicles(s, vt), f.vehicles@)
+    &&& cycles_listed(type_cycles(s, vt), f.vehicle_cycles@)
+}
+pub open spec fn fleets_listed(s: &Schedule, types: Seq<VehicleTypeIdx>, out: Seq<JsonFleet>) -> bool {
+    &&& out.len() == types.len()
+    &&& forall|i: int| 0 <= i < types.len() ==> is_fleet_json(s, types[i], #[trigger] &out[i])
+}
+/// number of dead-head trips of the first k fleets
+pub open spec fn fleet_total(fleets: Seq<JsonFleet>, k: int) -> int
+    decreases k,
+{
+    if k <= 0 { 0 } else { fleet_total(fleets, k - 1) + dht_total(fleets[k - 1].vehicles@, fleets[k - 1].vehicles@.len() as int) }
+}
+/// C03 (trip perspective == vehicle perspective for dead-head trips): the document's dead-head list is,
+/// fleet by fleet and vehicle by vehicle, a copy of each listed trip of each vehicle with formation [that vehicle]
+pub open spec fn all_dhts_listed(s: &Schedule, types: Seq<VehicleTypeIdx>, fleets: Seq<JsonFleet>, list: Seq<JsonFleetDeadHeadTripWithFormation>) -> bool {
+    &&& list.len() == fleet_total(fleets, fleets.len() as int)
+    &&& forall|t: int, i: int, j: int| 0 <= t < fleets.len() && 0 <= i < fleets[t].vehicles@.len() && 0 <= j < fleets[t].vehicles@[i].dead_head_trips@.len()
+            ==> is_dht_copy(type_vehicles(s, types[t])[i], #[trigger] &fleets[t].vehicles@[i].dead_head_trips@[j],
+                    &list[fleet_total(fleets, t) + dht_total(fleets[t].vehicles@, i) + j])
+}
+/// what schedule_to_json needs from the schedule (the union of the parts' preconditions)
+pub open spec fn document_pre(s: &Schedule) -> bool {
+    let types = s.network.vehicle_types.ids_sorted@;
+    &&& forall|i: int| 0 <= i < types.len() ==> type_ok(s, #[trigger] types[i])
+    &&& segments_pre(s)
+    &&& slots_pre(s)
+    &&& forall|d: DepotIdx| s.network.depots@.contains_key(d) ==> #[trigger] usage_pre(s, d)
+}
+/// the document the writer produces for schedule s
+pub open spec fn is_schedule_json(s: &Schedule, doc: &ScheduleJson) -> bool {
+    let net = &s.network;
+    let types = net.vehicle_types.ids_sorted@;
+    &&& depots_listed(s, depot_order(net), doc.depot_loads@)
+    &&& fleets_listed(s, types, doc.fleet@)
+    &&& segments_listed(s, all_seg_rows(net), doc.departure_segments@)
+    &&& slots_listed(s, net.maintenance_nodes@, doc.maintenance_slots@)
+    &&& all_dhts_listed(s, types, doc.fleet@, doc.dead_head_trips@)
+}
+pub proof fn lemma_fleet_total_prefix(a: Seq<JsonFleet>, b: Seq<JsonFleet>, k: int)
+    requires 0 <= k <= a.len(), k <= b.len(), forall|i: int| 0 <= i < k ==> a[i] == b[i],
+    ensures fleet_total(a, k) == fleet_total(b, k),
+    decreases k,
+{
+    if k > 0 { lemma_fleet_total_prefix(a, b, k - 1); }
+}
+pub proof fn lemma_fleet_total_mono(a: Seq<JsonFleet>, i: int, k: int)
+    requires 0 <= i <= k,
+    ensures 0 <= fleet_total(a, i) <= fleet_total(a, k),
+    decreases k,
+{
+    if k > 0 { lemma_dht_total_mono(a[k - 1].vehicles@, 0, a[k - 1].vehicles@.len() as int); }
+    if i < k { lemma_fleet_total_mono(a, i, k - 1); }
+    else if k > 0 { lemma_fleet_total_mono(a, i - 1, k - 1); }
+}
+/// the j-th trip of vehicle i lies inside the block of its fleet
+pub proof fn lemma_dht_slot_in_block(veh: Seq<JsonVehicle>, i: int, j: int)
+    requires 0 <= i < veh.len(), 0 <= j < veh[i].dead_head_trips@.len(),
+    ensures 0 <= dht_total(veh, i) + j < dht_total(veh, veh.len() as int),
+{
+    lemma_dht_total_mono(veh, 0, i);
+    lemma_dht_total_mono(veh, i + 1, veh.len() as int);
+}
+
+/// C03 "lists every departure segment ... of the input exactly once", under A-index: every service node
+/// of the network has exactly one row, and that row carries the node's own data and its train formation
+pub proof fn lemma_every_segment_exactly_once(s: &Schedule, out: Seq<JsonDepartureSegmentWithFormation>, n: NodeIdx)
+    requires a_index(&s.network), segments_listed(s, all_seg_rows(&s.network), out), s.network.has(n), s.network.sp_node(n) is Service,
+    ensures
+        exists|i: int| 0 <= i < out.len() && (#[trigger] all_seg_rows(&s.network)[i]).1 == n && is_segment_row(s, all_seg_rows(&s.network)[i].0, n, &out[i]),
+        forall|i: int, j: int| 0 <= i < j < out.len() ==> !((#[trigger] all_seg_rows(&s.network)[i]).1 == n && (#[trigger] all_seg_rows(&s.network)[j]).1 == n),
+{
+    let rows = all_seg_rows(&s.network);
+    let i = choose|i: int| 0 <= i < rows.len() && (#[trigger] rows[i]).1 == n;
+    assert(is_segment_row(s, rows[i].0, rows[i].1, &out[i]));
+}
+/// the same for maintenance slots
+pub proof fn lemma_every_slot_exactly_once(s: &Schedule, out: Seq<JsonFleetMaintenanceSlotWithFormation>, n: NodeIdx)
+    requires a_index(&s.network), slots_listed(s, s.network.maintenance_nodes@, out), s.network.has(n), s.network.sp_node(n) is Maintenance,
+    ensures
+        exists|i: int| 0 <= i < out.len() && #[trigger] s.network.maintenance_nodes@[i] == n && is_slot_row(s, n, &out[i]),
+        forall|i: int, j: int| 0 <= i < j < out.len() ==> !(#[trigger] s.network.maintenance_nodes@[i] == n && #[trigger] s.network.maintenance_nodes@[j] == n),
+{
+    let ns = s.network.maintenance_nodes@;
+    assert(ns.contains(n));
+    let i = choose|i: int| 0 <= i < ns.len() && ns[i] == n;
+    assert(is_slot_row(s, ns[i], &out[i]));
 }
